@@ -121,6 +121,10 @@ def SeqInput.names : SeqInput → List String
   | .seq names => names
   | .seqFile _ names _ _ => names
 
+def SeqInput.circ : SeqInput → Option Attrs
+  | .seq _ => none
+  | .seqFile _ _ _ circ => circ
+
 /-- the `MetaMolecule` built by the `if seq: … elif seq_file: …` of `gen_params` -/
 def SeqInput.graph : SeqInput → RGraph
   | .seq names => strandGraphFrom 0 names [] none
@@ -129,8 +133,8 @@ def SeqInput.graph : SeqInput → RGraph
 /-- `gen_params(..., seq=… | seq_file=…, dsdna=…)` up to the point where the residue graph is handed to
 `MapToMolecule`: build the strand from EITHER source, then `if dsdna: complement_dsDNA(meta_molecule)`. -/
 def genParamsDsdna (tbl : List (String × String)) (inp : SeqInput) (dsdna : Bool) : Except String RGraph :=
-  let meta := inp.graph
-  if dsdna then complement tbl meta else .ok meta
+  let mm := inp.graph
+  if dsdna then complement tbl mm else .ok mm
 
 end PolyplyVerif.Dna
 
